@@ -85,6 +85,54 @@ CHECKS["C04"] = {
     "note": _E2_NOTE, "design_ref": "5 (C04)",
 }
 
+_SS_NOTE = ("Trusted: the brute-force oracle written for this check and the reference model (gate rules re-derived from matrices). "
+            "Depth-1 input space: states = enumerated inputs, transitions = routine invocations.")
+CHECKS["C09"] = {
+    "engine": "tablescan+model",
+    "technique": "exhaustive enumeration of all 20 configurations x all 2^n+1 bases x all 2^n group elements, each conjugated through its circuit in the reference model",
+    "text": "Complete over the finite domain: counts, validity of every basis, exact-once coverage of all 4^n-1 Paulis, index alignment (circuit i diagonalises "
+            "every element of basis i), info numbers recomputed from the returned circuits, cost <= the library's own readout circuit, agreement of the three getters with the file.",
+    "note": _SS_NOTE, "design_ref": "5 (C09)",
+}
+CHECKS["C14"] = {
+    "engine": "smallscope+stategraph",
+    "technique": "exhaustive enumeration of signed generator lists (all for n<=2/3), all graphs, and Clifford programs (all programs to depth 3 at n=2, BFS trace program of every signed state n<=4) executed by the reference model",
+    "text": "strings->object->strings, mirror export and R/S/phase bits for ALL signed string lists (n=2; n=3 complete in thorough, a residue class in quick) and every signed Pauli in "
+            "every row for n=4..6; matrix formats vs string format; all 33866 graphs; circuit format: every program of length<=3 over the full gate set (n=2) and a full-alphabet "
+            "trace program for every signed stabilizer state of n<=4 (n=5: every group), each compared as a signed group with the model run of the same program.",
+    "note": _SS_NOTE, "design_ref": "5 (C14), 4 link 3",
+}
+CHECKS["C15"] = {
+    "engine": "smallscope+stategraph",
+    "technique": "exhaustive enumeration of stabilizer groups and pairs of groups from the explicit state graph, predicates compared with canonical forms / span enumeration",
+    "text": "is_equivalent_mod_phase on all ordered pairs of groups for n=2,3 (all generating sets in thorough) and n=4 (all pairs in thorough; landmarks in quick), and on table states vs all "
+            "their gate neighbours for n=4..6; expand() and is_qubit_entangled() for all groups n<=4 (n=5,6 complete in thorough) under re-presentation, against span enumeration "
+            "and the weight-one-element criterion.",
+    "note": _SS_NOTE, "design_ref": "5 (C15)",
+}
+CHECKS["C16"] = {
+    "engine": "smallscope+stategraph",
+    "technique": "exhaustive enumeration of (operator set, graph) pairs; existence decided by state-graph components (full stabilizers) or brute force over all 6^n layers (any other set)",
+    "text": "All ordered sets of <=2 Paulis x all graphs for n=2,3 (all triples at n=3 in thorough), all 2295 groups x graphs at n=4, groups x table graphs at n=5, rotated table states at n=6. "
+            "Existence oracle: same LC component (by definition) or brute force; returned layers must be genuine Clifford blocks, map all operators into the graph group, and the generated "
+            "gate sequence must act on X_q, Z_q exactly as the blocks say; the converter is fed all 16 block values.",
+    "note": _SS_NOTE, "design_ref": "5 (C16)",
+}
+CHECKS["C18"] = {
+    "engine": "smallscope",
+    "technique": "exhaustive enumeration of all binary matrices of every shape with m*n<=14 (quick) / 18 (thorough) against brute-force span and kernel enumeration; differential check on the real shapes",
+    "text": "Every binary matrix of every shape m x n with m*n <= bound (119k / 2M matrices), the zero-dimension shapes and every matrix the layer search actually builds (up to 36x24) go through "
+            "rref, rank, rref_and_basis_change and null_space; results are compared with an independent bit-packed elimination that is itself checked against span enumeration.",
+    "note": _SS_NOTE, "design_ref": "5 (C18)",
+}
+CHECKS["C19"] = {
+    "engine": "smallscope+stategraph",
+    "technique": "exhaustive enumeration of all graphs on 2..6 vertices x all vertices, all class ids and all grouping indices against independent bitmask implementations and the state-graph components",
+    "text": "Complete: compress/decompress bijection and bit positions for all 33866 graphs, local complementation (exact edge set, involution, simplicity, class preserved in the model's "
+            "component partition and by the library id) at every vertex, every class id through LCClassN and back, and all 15 grouping index families (valid partition, injective, round trip, count = number of structures).",
+    "note": _SS_NOTE, "design_ref": "5 (C19)",
+}
+
 NOT_YET = "check not built yet (work in progress in this session; planned as model checking, see DESIGN.md section 5)"
 
 
